@@ -95,3 +95,12 @@ Lemma installed_wrappers :
   /\ (forall ex, guarded (install true ex Raw) = true)
   /\ (forall ex, install false ex Raw = TranspilingW Raw).
 Proof. repeat split; intros ex; destruct ex; reflexivity. Qed.
+
+(* the lazy-lock variant lets two threads into the wrapped primitive at once: both read None, each builds its own lock *)
+Lemma lazy_lock_refuted :
+  exists st th0 th1, zrun (z_init 2) [0; 1; 0; 0; 0; 0; 1; 1; 1; 1] = Some st
+    /\ nth_error (z_ths st) 0 = Some th0 /\ nth_error (z_ths st) 1 = Some th1
+    /\ z_using th0 = true /\ z_using th1 = true /\ z_lock th0 <> z_lock th1.
+Proof.
+  eexists. eexists. eexists. split; [vm_compute; reflexivity|]. repeat split; try reflexivity. cbn. discriminate.
+Qed.
